@@ -109,6 +109,18 @@ def dt(rng, kind=None):
     return float(10.0 ** rng.uniform(-3, 0))
 
 
+def awkward_dt(rng, k):
+    """a time step for which the float identities dt/(dt/k) == k, (dt/k)*k == dt or k*(dt/k) <= dt fail (code that recovers an
+    integer factor or a duration from such quotients with int()/floor() goes wrong only for these); falls back to a log-uniform
+    step when no such step exists for k (powers of two)"""
+    for _ in range(400):
+        d = float(10.0 ** rng.uniform(-3, 0)) if rng.random() < 0.7 else float(rng.choice([0.03, 0.05, 0.1, 0.025, 0.07, 0.3, 0.006, 0.0125]))
+        q = d / k
+        if int(d / q) != k or int(np.ceil(d / q)) != k or q * k != d:
+            return d
+    return float(10.0 ** rng.uniform(-3, 0))
+
+
 def container(rng, x, kinds=('f64', 'f32', 'i64', 'list', 'tuple')):
     """Return (container, kind): the same numbers as another container/dtype (ints rounded)."""
     k = kinds[int(rng.integers(len(kinds)))]
